@@ -315,7 +315,9 @@ fn is_known<'a>(known: &'a [Known], prop: &str, v: &Violation) -> Option<&'a Kno
 /// Re-run one case in an isolated process; returns the violations it reports (by key), or None if it died.
 fn rerun_case(args: &Args, dir: &str, ord: u64, case: u64, tag: &str) -> Result<Option<Vec<Violation>>, String> {
     let wr = spawn_worker(args, dir, 0, 1, Some((ord, case)), tag).map_err(|e| e.to_string())?;
-    match wait_worker(wr, Instant::now() + Duration::from_secs(60)) {
+    // one case in isolation normally takes well under a second; four minutes keep a correct but much slower
+    // implementation on a loaded host from being mistaken for a hang (an abort or stack overflow ends at once)
+    match wait_worker(wr, Instant::now() + Duration::from_secs(240)) {
         Outcome::Report(r) => Ok(Some(r["violations"].as_array().map(|a| a.iter().map(Violation::from_json).collect()).unwrap_or_default())),
         Outcome::Died { .. } => Ok(None),
         Outcome::Harness(m) => Err(m),
